@@ -308,16 +308,22 @@ def compare_to_fresh(ctx, fresh, camp, keys, hist, exact, what, case):
 def oracle(ctx, scale):
     rng = ctx.rng
     d = rg.scratch("c11orc")
-    nconf = ctx.n(8, 16) * scale
+    nheavy = ctx.n(3, 5)
+    nconf = nheavy + ctx.n(6, 14) * scale
     for it in range(nconf):
+        heavy = it < nheavy
         cfg = c10.rand_config(rng, real_calc=False)
-        if it % 2 == 1:
+        if heavy:
+            # fixed merge-heavy configurations (evaluated old K-points gain weight, then more iterations follow), 4
+            # iterations, EVERY stopping point and EVERY split of the remaining iterations; they always run first
+            cfg = c10.merge_heavy(it, niter=4)
+        elif it % 2 == 1:
             # a smooth, wide peak and one refined point per criterion: no ties between refinement criteria, so that the
             # restart-from-an-earlier-iteration stream below is not cut short by np.argsort tie-breaking
             cfg.update(calcs=("peak",), adpt_fac=1, width=0.3, peak=[0.11, 0.2, 0.0 if cfg["system"].startswith("haldane") else 0.3137])
-        N = rng.choice([2, 3, 4]) if ctx.tier == "quick" else rng.choice([2, 3, 4, 4, 5])
+        N = 4 if heavy else (rng.choice([2, 3, 4]) if ctx.tier == "quick" else rng.choice([2, 3, 4, 4, 5]))
         cfg["adpt_num_iter"] = N
-        store = rng.choice(["restart", "dump"])
+        store = ["restart", "dump"][it % 2] if heavy else rng.choice(["restart", "dump"])
         keys = list(cfg["calcs"])
         exact = cfg["dyadic"]
         base = dict(cfg, store=store)
@@ -330,12 +336,18 @@ def oracle(ctx, scale):
             grew = any(len(fresh_fac[t]) > len(fresh_fac[t - 1]) or np.any(fresh_fac[t][:len(fresh_fac[t - 1])] != fresh_fac[t - 1])
                        for t in range(1, N + 1))
             fresh["ok"] = True
+            for t in range(1, N + 1):
+                added, moved, gained, revived = c10.weight_events(fresh_fac, t)
+                ctx.count("oracle.uninterrupted.evaluated_points_with_weight_gained_weight", gained)
+            check_selection(ctx, fresh["kl"], cfg, N, "uninterrupted run", base)
         if fresh is None or not fresh.get("ok"):
             continue
         # all stopping points x compositions of the rest (sampled in the quick tier) x listing orders
         plans = [(n, comp_) for n in range(0, N) for comp_ in compositions(N - n)]
         rng.shuffle(plans)
-        if ctx.tier == "quick":
+        if heavy:
+            ctx.count("oracle.merge_heavy_configurations(all splits)")
+        elif ctx.tier == "quick":
             plans = plans[:4]
         elif len(plans) > 10:
             plans = plans[:10]
@@ -359,6 +371,8 @@ def oracle(ctx, scale):
                 elif len(rg.read_klist(camp["kl"])) != fresh_nk:
                     ctx.fail(f"restart: K_list.pickle holds {len(rg.read_klist(camp['kl']))} K-points, the uninterrupted "
                              f"run's holds {fresh_nk}", case)
+                else:
+                    check_selection(ctx, camp["kl"], cfg, N, "restarted campaign", case)
         # restart from an EARLIER iteration (restart_iteration given explicitly or negative).  Outside the property
         # statement and the theorems: the K-point list then contains stale zero-weight points, np.argsort may break
         # ties between equal refinement criteria differently, and the redone iterations may legitimately refine other
@@ -394,6 +408,31 @@ def oracle(ctx, scale):
                                             "(same live K-points and weights as the uninterrupted run)", case):
                         break
     rg.cleanup()
+
+
+def check_selection(ctx, kl, cfg, N, what, case):
+    """independent of any comparison between runs: the K-points refined after iteration t must be the ones the
+    documented rule selects - for every criterion the adpt_fac largest values of  max|result| x weight  - recomputed
+    here from the restart files (the pickled per-K maxima and factors_iter-t).  Observable part: the selected points
+    of non-zero weight are exactly the old points whose weight dropped to zero in iteration t+1."""
+    K = rg.read_klist(kl)
+    facs = rg.read_all_factors(kl)
+    for t in range(0, N):
+        if t not in facs or t + 1 not in facs:
+            continue
+        f0, f1 = facs[t], facs[t + 1]
+        n = len(f0)
+        Kmax = np.array([K[i]._max * f0[i] for i in range(n)]).T
+        expected = set().union(*(np.argsort(Km)[-cfg["adpt_fac"]:] for Km in Kmax))
+        expected_live = sorted(int(i) for i in expected if f0[i] != 0)
+        divided = sorted(int(i) for i in range(n) if f0[i] != 0 and f1[i] == 0)
+        ctx.count("oracle.selection_rule.iterations_checked")
+        if divided != expected_live:
+            ctx.fail(f"{what}: the K-points refined after iteration {t} are {divided}, but the adpt_fac largest "
+                     f"max|result| x weight (recomputed from the restart files) select {expected_live}",
+                     dict(case, iteration=t))
+            return False
+    return True
 
 
 def live_set(kl, t):
